@@ -18,6 +18,7 @@ import (
 	"bytes"
 	"fmt"
 	"go/ast"
+	"go/parser"
 	"go/printer"
 	"go/token"
 	"go/types"
@@ -936,6 +937,54 @@ func flattenOne(site iifeSite) string {
 	_ = multi
 	_ = clash // (the temporaries are declared under names of their own: nothing in BODY is captured)
 	// from here on the syntax tree is modified (it is re-parsed before the next round)
+	// `x, ok := f()` at the top level of a literal with a named result `ok` assigns to that result (same scope, one new
+	// variable on the left).  The flattened body sits one block deeper, where the same statement would declare a new
+	// `ok` and leave the result alone: such a statement becomes `var x T; x, ok = f()`.
+	{
+		qual := types.RelativeTo(site.pkg.Types)
+		var nl []ast.Stmt
+		for _, st := range lit.Body.List {
+			as, ok := st.(*ast.AssignStmt)
+			if !ok || as.Tok != token.DEFINE {
+				nl = append(nl, st)
+				continue
+			}
+			reuses := false
+			for _, l := range as.Lhs {
+				if id, ok := l.(*ast.Ident); ok && id.Name != "_" && info.Defs[id] == nil {
+					if o := info.Uses[id]; o != nil {
+						if _, isRes := byObj[o]; isRes {
+							reuses = true
+						}
+					}
+				}
+			}
+			if !reuses {
+				nl = append(nl, st)
+				continue
+			}
+			okAll := true
+			for _, l := range as.Lhs {
+				id, ok := l.(*ast.Ident)
+				if !ok || id.Name == "_" || info.Defs[id] == nil {
+					continue
+				}
+				te, err := parser.ParseExpr(types.TypeString(info.Defs[id].Type(), qual))
+				if err != nil {
+					okAll = false
+					break
+				}
+				nl = append(nl, &ast.DeclStmt{Decl: &ast.GenDecl{Tok: token.VAR, Specs: []ast.Spec{&ast.ValueSpec{Names: []*ast.Ident{ast.NewIdent(id.Name)}, Type: te}}}},
+					&ast.AssignStmt{Lhs: []ast.Expr{ast.NewIdent("_")}, Tok: token.ASSIGN, Rhs: []ast.Expr{ast.NewIdent(id.Name)}})
+			}
+			if !okAll {
+				return ""
+			}
+			as.Tok = token.ASSIGN
+			nl = append(nl, as)
+		}
+		lit.Body.List = nl
+	}
 	ast.Inspect(lit.Body, func(n ast.Node) bool {
 		if id, ok := n.(*ast.Ident); ok {
 			if o := info.Uses[id]; o != nil {
